@@ -153,9 +153,24 @@ pub fn prims(ct: &str, thorough: bool, rng: &mut Rng, tl: (i32, i32)) -> Vec<Val
     }
     let open = vertex_shapes(thorough, tl, rng);
     for (n, s) in open.iter().enumerate() {
-        let per = if thorough { 4 } else { 1 };
+        let per = if thorough { 6 } else { 3 };
         for j in 0..per {
             v.push(prim(s.clone(), &st[(n * 7 + j * 13) % st.len()]));
+        }
+        // degenerate triangles (collinear / coincident vertices) and axis-aligned lines take special paths in
+        // the styled code: they get every style with width 0..2
+        let special = match s["k"].as_str().unwrap() {
+            "triangle" => {
+                let p: Vec<(i64, i64)> = (0..3).map(|i| (s["v"][i][0].as_i64().unwrap(), s["v"][i][1].as_i64().unwrap())).collect();
+                (p[1].0 - p[0].0) * (p[2].1 - p[0].1) - (p[2].0 - p[0].0) * (p[1].1 - p[0].1) == 0
+            }
+            "line" => s["s"][0] == s["e"][0] || s["s"][1] == s["e"][1],
+            _ => false,
+        };
+        if special && (thorough || n % 2 == 0) {
+            for style in st.iter().filter(|x| x["w"].as_u64().unwrap() <= 2 || x["w"].as_u64().unwrap() == 4) {
+                v.push(prim(s.clone(), style));
+            }
         }
     }
     v
